@@ -521,6 +521,25 @@ func (g *PCFG) walk(b *ssa.BasicBlock, idx int, barrier func(ssa.Instruction) bo
 	return rec(b, idx)
 }
 
+// paramsOfType: the parameters of fn whose type prints as ts (package qualifiers dropped), in order.
+// Rules identify parameters by position and type, never by name: renaming one leaves behaviour unchanged.
+func paramsOfType(fn *ssa.Function, ts string) []*ssa.Parameter {
+	var out []*ssa.Parameter
+	for _, pm := range fn.Params {
+		if types.TypeString(pm.Type(), func(*types.Package) string { return "" }) == ts {
+			out = append(out, pm)
+		}
+	}
+	return out
+}
+
+func pkeyAt(ps []*ssa.Parameter, i int) string {
+	if i < len(ps) {
+		return "p:" + ps[i].Name()
+	}
+	return "p:?"
+}
+
 // after returns the position just after an instruction.
 func after(in ssa.Instruction) (*ssa.BasicBlock, int) { return in.Block(), idxIn(in.Block(), in) + 1 }
 
